@@ -477,8 +477,11 @@ def finish(ctx, level="model_checking", extra_cov=None, rule=None):
         cov["transitions"] = max(1, int(cov.get("transitions", 0)))
     ev = {"property_id": ctx.pid, "tier": ctx.tier, "seed": ctx.seed, "level": level, "coverage": cov,
           "assumptions": ctx.assumptions, "wall_s": round(time.time() - ctx.t0, 2), "violations": len(unknown)}
-    os.makedirs(os.path.join(VERIF, "evidence"), exist_ok=True)
-    with open(os.path.join(VERIF, "evidence", ctx.pid + ".json"), "w") as fh:
+    # evidence describes runs on /repo itself; a run against another checkout (VERIF_REPO: scratch worktrees with seeded
+    # changes, development) must not overwrite it
+    evdir = os.path.join(VERIF, "evidence") if os.path.realpath(REPO) == "/repo" else os.path.join(tempfile.gettempdir(), "verif-evidence-other-tree")
+    os.makedirs(evdir, exist_ok=True)
+    with open(os.path.join(evdir, ctx.pid + ".json"), "w") as fh:
         json.dump(ev, fh, indent=1, default=str)
     print("RESULT property=%s tier=%s seed=%d failures=%d known=%d unknown=%d wall=%.1fs" %
           (ctx.pid, ctx.tier, ctx.seed, len(ctx.failures), len(ctx.failures) - len(unknown), len(unknown), time.time() - ctx.t0))
